@@ -72,6 +72,11 @@ CHECKS = {
         text="C03_kkt_sound / C03_certified_optimal: if check_cert accepts (x, multipliers) with bound gap then no feasible point of the convex problem has an objective below obj(x) - gap, for any number of variables, rows and order-1/order-2 terms. At every priority of real IPOPT runs (i) the NLP handed to the solver (f, g, lbg, ubg, lbx, ubx at rational points) is compared with the documented subproblem written down independently (gpform.py: weights, orders, soft rows with 0<=eps<=1, retained constraints, probabilities) and evaluated by the Gallina transcription model; (ii) the returned point and multipliers are certified in Coq on that independent formulation: reported objective = documented objective at the point, gap <= 1e-5, violation <= 1e-6; a loose certificate is backed by an independent solve of the independent formulation before any alarm.",
         note="Trusted: Coq kernel + vm_compute; gpform.py (the documented formulation) and the harness; IPOPT multipliers are inputs to a checker that is sound for any multipliers. keep_soft / single-pass objective constraints and scale_by_problem_size are compared by optimal value in C17, not by formulation; orders > 2 and nonlinear goal functions are outside the checker. No axioms.",
         ref="DESIGN.md §5 C03"),
+    "C15": dict(
+        technique="Coq proof (accessors characterised against the extracted results and the transcription environments, using the interpolation theorems of C19) + correspondence of the Gallina accessor model against state_at / der_at / integral / states_in / map_path_expression / extract_results",
+        text="C15_state_at_knot_is_result, C15_state_at_between, C15_state_at_outside_raises, C15_der_at, C15_integral_trapezoid, C15_map_path_expression hold for every problem, decision vector, member, variable with its own increasing grid and interpolation mode; the real accessors are evaluated as CasADi functions of X at a rational vector for queries on / between knots, before t0 (with and without history), after the end, windows with and without knots, and compared with the model.",
+        note="Trusted: Coq kernel + vm_compute; harness. Alias names, constant inputs/parameters through state_at, windows reaching into the history and integrate_states are outside the model. No axioms. Two genuine defects repaired in /repo (6922290 state_at scaling before t0, a760dfe integral over a knot-free window).",
+        ref="DESIGN.md §5 C15"),
 }
 
 PENDING_REASON = "check not built yet (work in progress; see DESIGN.md §7 build order) — not claimed until its Coq model, theorems and correspondence check run clean on the unchanged tree"
